@@ -470,9 +470,54 @@ class World:
             f.uname = f.name
             self.overloads.setdefault(f.name, []).append(f)
             self.fn_src[f.name] = rel
+    def synth_builders(self):
+        """derive_builder: for every struct S with `#[derive(Builder)]` the struct `SBuilder` (every field an Option), its setters
+        (`setter(into)` / `strip_option`: a value of an `Option<T>` field may be given as T or as Option<T>: the two setters f and
+        f__whole) and `build()` (fields in declaration order: a missing field is the error, or the default value under
+        `#[builder(default)]`), written as Rust text and read like the sources"""
+        def dflt(txt):
+            t = txt.replace(" ", "")
+            if t.startswith("Option<"):
+                return "None"
+            if t.startswith("Vec<"):
+                return "Vec::new()"
+            if t in INT_TAG:
+                return "0"
+            if t == "bool":
+                return "false"
+            return "%s::default()" % t
+        for name in list(self.structs):
+            meta = self.meta.get(name, {})
+            if "Builder" not in meta.get("derives", ()) or meta.get("tuple") or any(ft is None for _, ft in self.structs[name]):
+                continue
+            ftxt, fb = meta.get("field_text", {}), meta.get("field_builder", {})
+            fields = [f for f, _ in self.structs[name]]
+            bn = name + "Builder"
+            L = ["#[derive(Default)]", "pub struct %s { %s }" % (bn, ", ".join("%s: Option<%s>" % (f, ftxt[f]) for f in fields)), "impl %s {" % bn]
+            for f in fields:
+                others = ", ".join("%s: self.%s" % (g, g) for g in fields if g != f)
+                t = ftxt[f].replace(" ", "")
+                def setter(nm, pty, val):
+                    return "    fn %s(self, value: %s) -> %s { %s { %s: Some(%s)%s } }" % (nm, pty, bn, bn, f, val, (", " + others) if others else "")
+                if t.startswith("Option<"):
+                    inner = ftxt[f].strip()[len("Option"):].strip()[1:-1].strip()
+                    L.append(setter(f, inner, "Some(value)"))
+                    L.append(setter(f + "__whole", ftxt[f], "value"))
+                else:
+                    L.append(setter(f, ftxt[f], "value"))
+            parts = []
+            for f in fields:
+                miss = dflt(ftxt[f]) if "default" in fb.get(f, ()) else 'return Err(String::from("%s"))' % f
+                parts.append("%s: match self.%s { Some(v) => v, None => %s }" % (f, f, miss))
+            L.append("    fn build(self) -> Result<%s, String> { Ok(%s { %s }) }" % (name, name, ", ".join(parts)))
+            L.append("}")
+            self.load("<derive(Builder) of %s, %s>" % (name, self.struct_src[name]), text="\n".join(L))
+
     def finish(self):
         """after all files: the plain name of an overloaded function is ambiguous; operator impls get the type of the
         right operand into their name"""
+        if self.unit.get("builders"):
+            self.synth_builders()
         if not self.unit.get("xops"):
             return
         for name, lst in self.overloads.items():
@@ -784,6 +829,12 @@ def unify(a, b):
         return ("tup", tuple(unify(x, y) for x, y in zip(a[1], b[1])))
     raise ValueError
 
+def unify_or_none(a, b):
+    try:
+        return unify(a, b)
+    except ValueError:
+        return None
+
 def place_text(e):
     """`self.ctx` for the expression self.ctx; None for anything that is not a chain of fields from a name"""
     if e.kind == "refmut":
@@ -924,6 +975,8 @@ class FnGen:
         else:
             self.self_ty = self.w.resolve(fn.self_ty, self.ctx) if fn.self_ty is not None else None
         self.fail_methods = set(tr.unit.get("fail_methods", ())) | {"fail"}
+        self.fueled = tr.needs_fuel(fn)
+        self.used_fuel = False
         self.use_names = {}
         self.arr_hint = None
         self.tmp = 0
@@ -1607,9 +1660,12 @@ class FnGen:
                 self.err(node, "%s has abstract callees and cannot be called from a translated function" % f.name)
             self.tr.need_fn(f)
             head = "g_" + self.tr.uname(f).replace("::", "_")
+            if self.tr.needs_fuel(f):
+                self.used_fuel = True
+                head += " fuel__"
         self.note_struct(sig["ret"])
         if not vals:
-            return Val("M", head, sig["ret"])
+            return Val("M", head if " " not in head else "(%s)" % head, sig["ret"])
         return self.seq(vals, lambda ns: Val("M", "(%s %s)" % (head, " ".join(ns)), sig["ret"]))
 
     def ctor_call(self, e, env, expect):
@@ -1989,6 +2045,13 @@ class FnGen:
             if key is None:
                 self.err(e, "method .%s on %r" % (name, ty))
             qn_ = "%s::%s" % (key, name)
+            if self.unit.get("builders") and qn_ + "__whole" in self.w.fns and len(e.args) == 1:
+                # a builder setter of an `Option<T>` field: given a T or an Option<T>
+                av = self.ex(e.args[0], env)
+                fw = self.w.fns[qn_ + "__whole"]
+                if av.ty is not None and av.ty[0] == "opt" and self.tr.signature(fw)["params"][1][1] == unify_or_none(self.tr.signature(fw)["params"][1][1], av.ty):
+                    return self.emit_call(fw, e.args, r, env, e, arg_vals=[av])
+                return self.emit_call(self.callee(qn_, e), e.args, r, env, e, arg_vals=[av])
             if self.sets and len(self.w.overloads.get(qn_, [])) > 1:
                 # several declarations (a parameter `&impl Trait`, declared in the prelude at each type used): by the argument types
                 avs = [self.ex(a, env) for a in e.args]
@@ -2091,8 +2154,12 @@ class FnGen:
             if v.ty[0] == "tryres":
                 self.err(s, "a try_from result must be unwrapped at once")
             return self.let_(s.pat, v, lambda env2: self.stmts(rest, env2, K), env, s)
+        if k == "assign" and self.unit.get("join") and s.op == "=" and s.rhs.kind in ("match", "if", "block") and self.needs_push(s.rhs):
+            return self.stmts([N("exprstmt", s.line, e=self.push_assign(s.rhs, s.lhs), semi=True)] + list(rest), env, K)
         if k == "assign":
             return self.assign(s, rest, env, K)
+        if k == "exprstmt" and s.e.kind in ("break", "continue") and self.unit.get("join"):
+            return K.brk(env) if s.e.kind == "break" else K.cont(env)
         if k == "return":
             if s.e is None:
                 return K.ret(None, env)
@@ -2363,7 +2430,56 @@ class FnGen:
         return self.store(place, newv, rest, env, K, s)
 
     def while_(self, s, rest, env, K):
-        self.err(s, "`while` / `loop` are parsed but not translated yet")
+        """`loop { body }` / `while c { body }` on fuel: k_loop over the body, a function of the remaining fuel and of the locals it assigns"""
+        if not self.unit.get("join"):
+            self.err(s, "`while` / `loop` are parsed but not translated yet")
+        self.nloop += 1
+        nloop = self.nloop
+        body = self.as_stmts(list(s.body.stmts))
+        if s.cond is not None:
+            l = s.line
+            body = [N("exprstmt", l, e=N("if", l, letvar=None, letpat=None, cond=N("un", l, op="!", e=s.cond),
+                                         then=N("block", l, stmts=[N("exprstmt", l, e=N("break", l), semi=True)]), els=None), semi=True)] + body
+        bound_in = let_names(body, set())
+        state = []
+        for r in self.assigned_x(body):
+            if r in env and r not in bound_in and r not in state:
+                state.append(r)
+        if any(n in state for n in self.mut_params):
+            self.mut_self = True
+        used = names_used(body, set())
+        for n in env:
+            if n in used and env[n] is not None and env[n][0] == "alias" and n not in bound_in:
+                self.err(s, "the `&mut` alias %s is used inside a loop" % n)
+        free = [n for n in env if n in used and n not in state and not (env[n] is not None and env[n][0] == "alias")]
+        st_ty = [env[n] for n in state]
+        def tup(names):
+            return "tt" if not names else "(" + ", ".join(mangle(n) for n in names) + ")" if len(names) > 1 else mangle(names[0])
+        s_cty = "unit" if not state else cty(("tup", tuple(st_ty))) if len(state) > 1 else cty(st_ty[0])
+        plain_ret = Translator.plain(K.ret_ty)
+        r_cty = cty(plain_ret) if plain_ret is not None else "unit"
+        kl = KWhile(self, K.ret_ty, state)
+        b = self.stmts(body, dict(env), kl)
+        lname = "g_%s_loop%d" % (self.tr.uname(self.fn).replace("::", "_"), nloop)
+        params = "".join(" (%s : %s)" % (mangle(n), cty(env[n])) for n in free)
+        unpack = "" if not state else ("let %s%s := st__ in " % ("'" if len(state) > 1 else "", tup(state)))
+        self.aux.append("(* body of loop %d of %s (line %d): `loop` / `while` on fuel, state %s *)\nDefinition %s (fuel__ : nat)%s (st__ : %s) : M (ctrl %s (ctrl %s %s)) :=\n  %s%s.\n"
+                        % (nloop, self.fn.name, s.line, tup(state), lname, params, s_cty, r_cty, s_cty, s_cty, unpack, self.toM(b)))
+        self.tr.need_nofuel = True
+        self.tr.need_l = True
+        bodyf = "(fun fuel__ st__ => %s fuel__%s st__)" % (lname, "".join(" " + mangle(n) for n in free))
+        after = self.stmts(rest, dict(env), K)
+        if K.ret_ty is not None and K.ret_ty[0] == "res":
+            brk = K.ret(Val("M", "(k_ret ops v__)", K.ret_ty), env)
+        elif isinstance(K, (KValue, KJoin)):
+            brk = Val("M", "(k_panic ops)", None)
+        else:
+            brk = K.ret(Val("P", "v__", K.ret_ty), env)
+        ty = after.ty if after.ty is not None else brk.ty
+        loop = "(k_loop ops (k_nofuel _) fuel__ %s %s)" % (bodyf, tup(state))
+        cont_pat = "_" if not state else tup(state) if len(state) == 1 else "st__"
+        cont = "(let '%s := st__ in %s)" % (tup(state), self.toM(after)) if len(state) > 1 else self.toM(after)
+        return Val("M", "(k_bind ops %s (fun r__ => match r__ with Brk v__ => %s | Cont %s => %s end))" % (loop, self.toM(brk), cont_pat, cont), ty)
 
     def assigned_x(self, body):
         """the roots a loop body assigns, calls that change a place included"""
@@ -2924,6 +3040,51 @@ class FnGen:
             return Val(r.kind, "(let %s := %s in %s)" % (mangle(rname), upd, r.term), r.ty)
         return self.seq([newv], build)
 
+    def needs_push(self, e):
+        """the value of this match / if / block cannot be translated as an expression: an arm leaves the loop or the function, or
+        changes a local"""
+        return has_kind(e, "break") or has_kind(e, "continue") or has_kind(e, "return") or bool(assigned_roots(e, [])) \
+            or any(has_kind(e, "mcall") and True for _ in ()) or self.has_mutating_call(e)
+
+    def has_mutating_call(self, e):
+        found = []
+        def walk(n):
+            if isinstance(n, N):
+                if n.kind == "mcall" and n.name in MUTATORS + ("extend", "remove") and lvalue_root(n.recv) is not None:
+                    found.append(n)
+                for k_, v_ in n.__dict__.items():
+                    if k_ not in ("kind", "line"):
+                        walk(v_)
+            elif isinstance(n, (list, tuple)):
+                for x in n:
+                    walk(x)
+        walk(e)
+        return bool(found)
+
+    def push_assign(self, e, lhs):
+        """`lhs = match .. { p => v, q => break, .. }` as the match with `lhs = v` in the arms that have a value"""
+        def diverges(x):
+            return x.kind in ("break", "continue", "return") or (x.kind == "macro" and x.name in ("unimplemented", "unreachable", "todo", "panic"))
+        def value_stmts(x):
+            if x.kind == "block":
+                st = list(x.stmts)
+                if st and st[-1].kind == "exprstmt" and not st[-1].semi:
+                    return st[:-1] + value_stmts(st[-1].e)
+                return st
+            if diverges(x):
+                return [N("exprstmt", x.line, e=x, semi=True)]
+            if x.kind in ("match", "if") and self.needs_push(x):
+                return [N("exprstmt", x.line, e=self.push_assign(x, lhs), semi=True)]
+            return [N("assign", x.line, lhs=lhs, op="=", rhs=x)]
+        if e.kind == "match":
+            return N("match", e.line, scrut=e.scrut, arms=[(p_, g_, N("block", b_.line, stmts=value_stmts(b_))) for p_, g_, b_ in e.arms])
+        if e.kind == "if":
+            if e.els is None:
+                self.err(e, "an `if` without `else` used as a value")
+            return N("if", e.line, letvar=e.letvar, letpat=getattr(e, "letpat", None), cond=e.cond,
+                     then=N("block", e.line, stmts=value_stmts(e.then)), els=N("block", e.line, stmts=value_stmts(e.els)))
+        return N("block", e.line, stmts=value_stmts(e))
+
     def range_lits(self, r):
         if not (r.lo.kind == "int" and r.hi.kind == "int" and self.unit.get("join")):
             self.err(r, "a sub-slice `v[a..b]` is in the subset with literal bounds only")
@@ -3073,11 +3234,11 @@ class FnGen:
         kl = KLoop(self, K.ret_ty, state)
         b = self.stmts(body, benv, kl)
         lname = "g_%s_loop%d" % (self.tr.uname(self.fn).replace("::", "_"), nloop)
-        params = "".join(" (%s : %s)" % (mangle(n), cty(env[n])) for n in free)
+        params = (" (fuel__ : nat)" if self.fueled else "") + "".join(" (%s : %s)" % (mangle(n), cty(env[n])) for n in free)
         unpack = "" if not state else ("let %s%s := st__ in " % ("'" if len(state) > 1 else "", tup(state)))
         self.aux.append("(* body of loop %d of %s (line %d): loop variable %s, state %s *)\nDefinition %s%s (%s : %s) (st__ : %s) : M (ctrl %s %s) :=\n  %s%s.\n"
                         % (nloop, self.fn.name, s.line, lv, tup(state), lname, params, mangle(lv), cty(vty), s_cty, r_cty, s_cty, unpack, self.toM(b)))
-        bodyf = "(fun %s st__ => %s%s %s st__)" % (mangle(lv), lname, "".join(" " + mangle(n) for n in free), mangle(lv))
+        bodyf = "(fun %s st__ => %s%s%s %s st__)" % (mangle(lv), lname, " fuel__" if self.fueled else "", "".join(" " + mangle(n) for n in free), mangle(lv))
         after_env = dict(env)
         after = self.stmts(rest, after_env, K)
         if self.sets and isinstance(K, KValue) and not has_kind(body, "return"):
@@ -3102,7 +3263,13 @@ class FnGen:
             return Val("M", "(k_bind ops %s (fun r__ => match r__ with Brk v__ => %s | Cont %s => %s end))" % (loop, self.toM(brk), cont_pat, cont), ty)
         return self.seq([lo, hi] if s.hi is not None else [coll], build)
 
-class KValue:
+class KNoLoop:
+    def brk(self, env):
+        raise Unsupported("%s: in fn %s: `break` outside a `loop` / `while` (a `for` loop is left by `return` only)" % (self.g.fn.fname, self.g.fn.name))
+    def cont(self, env):
+        raise Unsupported("%s: in fn %s: `continue` outside a `loop` / `while`" % (self.g.fn.fname, self.g.fn.name))
+
+class KValue(KNoLoop):
     """continuation of a block used as a value inside an expression: no `return` through it"""
     def __init__(self, g, expect):
         self.g, self.val_ty, self.ret_ty = g, expect, None
@@ -3115,7 +3282,31 @@ class KValue:
             return Val("M", v.term, None, fail=True)     # `return Err(..)`: the error leaves the function from anywhere
         raise Unsupported("%s: in fn %s: `return` inside a block that is used as a value" % (self.g.fn.fname, self.g.fn.name))
 
-class KJoin:
+class KWhile:
+    """end of the body of a `loop` / `while`: the next round; `break` leaves the loop, `return v` the function"""
+    def __init__(self, g, ret_ty, state):
+        self.g, self.val_ty, self.ret_ty, self.state = g, ("unit",), ret_ty, state
+    def st(self):
+        return "tt" if not self.state else "(" + ", ".join(mangle(n) for n in self.state) + ")" if len(self.state) > 1 else mangle(self.state[0])
+    def end(self, v, env):
+        t = "(k_ret ops (Cont (Cont %s)))" % self.st()
+        if v is not None and v.kind == "M":
+            if v.ty is None:
+                return Val("M", v.term, ("ctrl",), fail=v.fail)
+            return Val("M", "(k_bind ops %s (fun _ => %s))" % (v.term, t), ("ctrl",))
+        return Val("M", t, ("ctrl",))
+    def cont(self, env):
+        return Val("M", "(k_ret ops (Cont (Cont %s)))" % self.st(), ("ctrl",))
+    def brk(self, env):
+        return Val("M", "(k_ret ops (Cont (Brk %s)))" % self.st(), ("ctrl",))
+    def ret(self, v, env):
+        if v is None:
+            return Val("M", "(k_ret ops (Brk tt))", ("ctrl",))
+        if v.fail:
+            return Val("M", v.term, ("ctrl",), fail=True)
+        return self.g.seq([Val(v.kind, v.term, Translator.plain(v.ty))], lambda ns: Val("M", "(k_ret ops (Brk %s))" % ns[0], ("ctrl",)))
+
+class KJoin(KNoLoop):
     """end of a branch of an `if` / `match` that is joined with the rest of its block: the locals the branches assign"""
     def __init__(self, g, state):
         self.g, self.val_ty, self.ret_ty, self.state = g, None, None, state
@@ -3130,7 +3321,7 @@ class KJoin:
     def ret(self, v, env):
         raise Unsupported("%s: in fn %s: `return` inside a branch that is joined" % (self.g.fn.fname, self.g.fn.name))
 
-class KFn:
+class KFn(KNoLoop):
     """end of the function body"""
     def __init__(self, g, ret_ty):
         self.g, self.val_ty, self.ret_ty = g, ret_ty, ret_ty
@@ -3149,7 +3340,7 @@ class KFn:
     def ret(self, v, env):
         return self.end(v, env)
 
-class KLoop:
+class KLoop(KNoLoop):
     """end of a loop body: go on with the state; `return v` leaves the function"""
     def __init__(self, g, ret_ty, state):
         self.g, self.val_ty, self.ret_ty, self.state = g, ("unit",), ret_ty, state
@@ -3413,6 +3604,50 @@ class Translator:
             return False
         return walk(node)
 
+    def needs_fuel(self, f):
+        """does f contain a `while` / `loop`, or call (as far as names tell) a function of the unit that does?"""
+        if not self.unit.get("join"):
+            return False
+        memo = self.__dict__.setdefault("fuel_memo", {})
+        key = id(f)
+        if key in memo:
+            return memo[key] is True
+        memo[key] = "busy"
+        res = False
+        if f.body_range is not None and f.name not in self.unit.get("extern", ()):
+            try:
+                body = parse_fn_body(f)
+            except Unsupported:
+                body = None
+            if body is not None:
+                if has_kind(body, "while"):
+                    res = True
+                else:
+                    own = self_name(f.self_ty)
+                    def walk(n):
+                        if isinstance(n, N):
+                            if n.kind == "mcall":
+                                cands = []
+                                if n.recv.kind == "path" and n.recv.segs == ["self"] and own is not None:
+                                    g = self.w.fns.get("%s::%s" % (own, n.name))
+                                    cands = [g] if g is not None else []
+                                else:
+                                    cands = [g for lst in self.w.overloads.values() for g in lst if g.short == n.name]
+                                if any(g is not f and self.needs_fuel(g) for g in cands):
+                                    return True
+                            if n.kind == "call" and len(n.path) <= 2:
+                                qn = "::".join([own if (x == "Self" and own) else x for x in n.path])
+                                g = self.w.fns.get(qn)
+                                if g is not None and g is not f and self.needs_fuel(g):
+                                    return True
+                            return any(walk(v) for k, v in n.__dict__.items() if k not in ("kind", "line"))
+                        if isinstance(n, (list, tuple)):
+                            return any(walk(x) for x in n)
+                        return False
+                    res = walk(body)
+        memo[key] = res
+        return res
+
     def need(self, qn):
         if qn not in self.w.fns:
             raise Unsupported("function %s not found in %s" % (qn, ", ".join(self.file_list)))
@@ -3463,8 +3698,11 @@ class Translator:
         elif v.ty is not None and v.ty != real_ret and not (real_ret == ("unit",) and v.ty == ("unit",)):
             raise Unsupported("%s:%d: fn %s: body of type %r, declared %r" % (f.fname, f.line, f.name, v.ty, real_ret))
         name = "g_" + qn.replace("::", "_")
-        params = "".join(" (ext_%s : %s)" % (x.replace("::", "_"), self.extern_ty(x)) for x in g.externs)
+        params = " (fuel__ : nat)" if self.needs_fuel(f) else ""
+        params += "".join(" (ext_%s : %s)" % (x.replace("::", "_"), self.extern_ty(x)) for x in g.externs)
         params += "".join(" (%s : %s)" % (mangle(pn), cty(pt)) for pn, pt in sig["params"])
+        if g.used_fuel and not self.needs_fuel(f):
+            raise Unsupported("%s:%d: fn %s calls a function that runs on fuel, which the analysis of its body did not see" % (f.fname, f.line, f.name))
         txt = "".join(g.aux)
         txt += "(* %s:%d  fn %s *)\nDefinition %s%s : M %s :=\n  %s.\n" % (f.fname, f.line, qn, name, params, cty(self.plain(real_ret)), g.toM(v))
         self.structs_used |= g.structs_used
@@ -3638,6 +3876,8 @@ def run_unit(unit):
             L += ["(* types of other crates / types the models keep abstract *)",
                   "Variables %s : Type." % " ".join("T_" + n for n in sorted(tr.foreign_used)), ""]
         L += structs
+        if getattr(tr, "need_nofuel", False):
+            L += ["(* what running out of fuel in a `loop` / `while` is *)", "Variable k_nofuel : forall A : Type, M A.", ""]
         for name in sorted(tr.externs_used):
             ty, src = tr.externs_used[name]
             L += ["(* %s *)" % src, "Variable %s : %s." % (name, ty)]
